@@ -283,7 +283,13 @@ def run(ctx):
             c["ops"] += [["arm", ctx.rng.choice([0, 1, 1, 2]), "Fault"], ["set", t, ["plain", ctx.rng.randint(-9, 9)], "sv"], ["disarm"]]
         if ctx.rng.random() < 0.25:         # the state at the moment of pickling: frozen / unfrozen again
             c["ops"] += [["freeze"]] if ctx.rng.random() < 0.7 else [["freeze"], ["unfreeze"]]
-        c["ops"].append(["picklecheck", [[ctx.rng.choice(lv), ctx.rng.randint(-9, 9)] for _ in range(4)],
+        extra = []
+        if ctx.rng.random() < 0.4:
+            # a namespace that is still EMPTY at the moment of pickling (Manager.ref() / newenv() start with an empty AttrDict)
+            # and gets its first members afterwards, by attribute and by item
+            c["store"].append(["e", {"kind": ctx.rng.choice(["attrdict", "attrdict_plain"]), "items": []}])
+            extra = [[["e", ["a", "k1"]], ctx.rng.randint(-9, 9)], [["e", ["i", "k2"]], ctx.rng.randint(-9, 9)], [["e", ["a", "k1"]], 3]]
+        c["ops"].append(["picklecheck", [[ctx.rng.choice(lv), ctx.rng.randint(-9, 9)] for _ in range(4)] + extra,
                          ctx.rng.choice([None, None, "self", "ref", "method"])])      # AttrDict containers reachable from their own contents
         ncases.append(c)
     # linear-knob tasks whose remembered source value lags behind the source at the moment of pickling (an update that failed
